@@ -105,6 +105,25 @@ func flipCase(s string, rng *common.Rng) string {
 	return string(b)
 }
 
+// flipSome changes the case of at least one ASCII letter (if there is one)
+func flipSome(s string, rng *common.Rng) string {
+	var pos []int
+	for i := 0; i < len(s); i++ {
+		if c := s[i] | 0x20; 'a' <= c && c <= 'z' {
+			pos = append(pos, i)
+		}
+	}
+	if len(pos) == 0 {
+		return s
+	}
+	b := []byte(flipCase(s, rng))
+	if string(b) == s {
+		i := pos[rng.Pick(len(pos))]
+		b[i] ^= 0x20
+	}
+	return string(b)
+}
+
 // a name for a command: often one the state knows (or near it), sometimes malformed
 func (g *gen) name(st *refState) string {
 	ks := known(st)
@@ -274,6 +293,42 @@ func (g *gen) mutation(st *refState) op {
 	case x < 93:
 		o := op{Kind: "CRENAME", Levels: g.levelsNear(st)}
 		g.target(st, &o)
+		if o.Target == "" {
+			return o
+		}
+		valid := func(n string) bool {
+			return n != "" && !strings.HasPrefix(n, g.d) && !strings.HasSuffix(n, g.d) && !strings.Contains(n, g.d+g.d)
+		}
+		switch y := g.rng.Pick(100); {
+		case y < 30: // nothing but the case of some letters changes (names are case-sensitive, only a byte-equal name is a no-op)
+			if n := flipSome(o.Target, g.rng); valid(n) {
+				o.Levels = strings.Split(n, g.d)
+			}
+		case y < 40: // onto a spelling of INBOX at the first level
+			o.Levels = []string{flipCase("INBOX", g.rng)}
+			if g.rng.Chance(0.6) {
+				o.Levels = append(o.Levels, g.comp())
+			}
+		case y < 60: // a mailbox that has inferiors (a connector update moves that one mailbox only)
+			var c []string
+			for _, r := range st.Rows {
+				if r.ID <= 1 {
+					continue
+				}
+				for _, q := range st.Rows {
+					if isSuperior(g.d, r.Name, q.Name) {
+						c = append(c, r.Name)
+						break
+					}
+				}
+			}
+			if len(c) > 0 {
+				o.Target = c[g.rng.Pick(len(c))]
+				if n := flipSome(o.Target, g.rng); g.rng.Chance(0.4) && valid(n) {
+					o.Levels = strings.Split(n, g.d)
+				}
+			}
+		}
 		return o
 	default:
 		o := op{Kind: "CDELETE"}
@@ -477,6 +532,14 @@ func script(d string) []op {
 		{Kind: "CCREATE", Levels: lv("c1", "c2", "c3")}, {Kind: "CCREATE", Levels: lv("iNbOx", "cc")}, mk("LIST", "", "inbox/*"),
 		{Kind: "CRENAME", Target: x("c1/c2/c3"), Levels: lv("InBoX")}, {Kind: "CRENAME", Target: x("c1/c2/c3"), Levels: lv("c9")},
 		{Kind: "CDELETE", Target: "c9"}, mk("LSUB", "", "*"), {Kind: "CDELETE", Dead: true}, {Kind: "CDUP", Target: "INBOX", Levels: lv("dup")},
+		// connector renames that change nothing but the case; a mailbox with inferiors; onto INBOX at the first level
+		{Kind: "CCREATE", Levels: lv("Projects")}, {Kind: "CRENAME", Target: "Projects", Levels: lv("projects")}, mk("LIST", "", "%rojects"),
+		mk("LSUB", "", "*"), mk("CREATE", "Projects"), {Kind: "CRENAME", Target: "projects", Levels: lv("projects")},
+		{Kind: "CRENAME", Target: "projects", Levels: lv("Projects")},
+		{Kind: "CCREATE", Levels: lv("Par", "kid")}, {Kind: "CCREATE", Levels: lv("Par")}, {Kind: "CRENAME", Target: "Par", Levels: lv("par")},
+		mk("LIST", "", "%ar/%"), mk("LIST", "", "%ar"), {Kind: "CRENAME", Target: x("Par/kid"), Levels: lv("par", "Kid")}, mk("LSUB", "", "par/%"),
+		{Kind: "CRENAME", Target: "par", Levels: lv("iNbOx", "deep")}, mk("LIST", "", "inbox/%"),
+		{Kind: "CRENAME", Target: x("INBOX/deep"), Levels: lv("InBoX", "Deep")}, mk("LIST", "inbox/", "%"),
 		mk("LIST", "", ""), mk("LIST", "x/y", ""), mk("LIST", "/x", ""), mk("LSUB", "x/", ""), mk("LIST", "", "%/%"), mk("LIST", "", "*%"), mk("LSUB", "", "%*"),
 	}
 }
